@@ -78,6 +78,10 @@ func TestVerif(t *testing.T) {
 	for i := 0; i < nF; i++ {
 		r.Run(groupF+i, fmt.Sprintf("single-valued-%d", i), func(c *rep.Case) { runSingle(t, r, c, groupF+i) })
 	}
+	nG := grp("G", r.N(240, 1600))
+	for i := 0; i < nG; i++ {
+		r.Run(groupG+i, fmt.Sprintf("chain-fault-%d", i), func(c *rep.Case) { runChainFault(t, r, c, groupG+i) })
+	}
 }
 
 // selfCheckClasses validates the harness' class construction against x/text
